@@ -906,6 +906,7 @@ func (s *Session) execUpdate(x *ast.UpdateStmt, args []interface{}, now time.Tim
 	je.Table = strings.ToUpper(t.Name)
 	for _, r := range rows {
 		je.Matched = append(je.Matched, t.pkKey(r))
+		je.MatchedRows = append(je.MatchedRows, append([]interface{}{}, r...))
 	}
 	var affected uint64
 	for _, old := range rows {
@@ -983,6 +984,7 @@ func (s *Session) execDelete(x *ast.DeleteStmt, args []interface{}, now time.Tim
 	je.Table = strings.ToUpper(t.Name)
 	for _, r := range rows {
 		je.Matched = append(je.Matched, t.pkKey(r))
+		je.MatchedRows = append(je.MatchedRows, append([]interface{}{}, r...))
 	}
 	for _, old := range rows {
 		k := t.pkKey(old)
